@@ -2661,7 +2661,7 @@ func (rl *clientConnReadLoop) handleResponse(cs *clientStream, f *MetaHeadersFra
 	}
 	res.Body = transportResponseBody{cs}
 
-	if cs.requestedGzip && ascii.EqualFold(res.Header.Get("Content-Encoding"), "gzip") {
+	if cs.requestedGzip && ascii.EqualFold(compress.ContentEncoding(res.Header), "gzip") {
 		res.Header.Del("Content-Encoding")
 		res.Header.Del("Content-Length")
 		res.ContentLength = -1
@@ -2669,7 +2669,7 @@ func (rl *clientConnReadLoop) handleResponse(cs *clientStream, f *MetaHeadersFra
 		res.Uncompressed = true
 	} else if cs.cc.t.AutoDecompression {
 		// Leave the response alone unless the encoding is one we can decode.
-		if cr := compress.NewCompressReader(res.Body, res.Header.Get("Content-Encoding")); cr != nil {
+		if cr := compress.NewCompressReader(res.Body, compress.ContentEncoding(res.Header)); cr != nil {
 			res.Header.Del("Content-Encoding")
 			res.Header.Del("Content-Length")
 			res.ContentLength = -1
